@@ -33,6 +33,7 @@ def clone(e: ast.AST) -> ast.AST:
         for a in ("lineno", "col_offset", "end_lineno", "end_col_offset"):
             if hasattr(e, a):
                 setattr(new, a, getattr(e, a))
+        new._orig = getattr(e, "_orig", e)   # the node of the parsed module this copy stands for
         return new
     if isinstance(e, list):
         return [clone(x) for x in e]
@@ -59,12 +60,40 @@ class Subst(ast.NodeTransformer):
         return self.generic_visit(n)
 
 
+def _const_key(e: ast.expr) -> bool:
+    return isinstance(e, ast.Constant) or (isinstance(e, ast.Attribute) and attr_chain(e) is not None and attr_chain(e)[:1].isupper())
+
+
+class _Beta(ast.NodeTransformer):
+    """{k: V(k) for k in (A, B, C)}[A]  ->  V(A)      {A: x, B: y}[A]  ->  x      (A, B, C distinct constant keys: literals or
+    members of a class / enum such as Priority.QUERY)"""
+
+    def visit_Subscript(self, n: ast.Subscript):
+        self.generic_visit(n)
+        v, k = n.value, n.slice
+        if not _const_key(k):
+            return n
+        if isinstance(v, ast.DictComp) and len(v.generators) == 1 and not v.generators[0].ifs and isinstance(v.generators[0].target, ast.Name) \
+                and isinstance(v.key, ast.Name) and v.key.id == v.generators[0].target.id and isinstance(v.generators[0].iter, (ast.Tuple, ast.List)):
+            elts = v.generators[0].iter.elts
+            texts = [U(x) for x in elts]
+            if all(_const_key(x) for x in elts) and len(set(texts)) == len(texts) and U(k) in texts:
+                return Subst({v.key.id: k}).visit(clone(v.value))
+        if isinstance(v, ast.Dict) and all(x is not None and _const_key(x) for x in v.keys):
+            texts = [U(x) for x in v.keys]
+            if len(set(texts)) == len(texts) and U(k) in texts:
+                return v.values[texts.index(U(k))]
+        return n
+
+
 def subst(e: ast.expr, env: Optional[Dict[str, ast.expr]]) -> ast.expr:
     if not env:
         return e
     out = e
     for _ in range(4):  # chains of temporaries
         new = Subst(env).visit(clone(out))
+        if any(isinstance(x, (ast.DictComp, ast.Dict)) for x in ast.walk(new)):
+            new = _Beta().visit(new)
         if ast.dump(new) == ast.dump(out):
             break
         out = new
@@ -295,8 +324,20 @@ def _distinct(fs: Set, l: str, r: str) -> bool:
     return False
 
 
+def _inconsistent(fs: Set) -> bool:
+    """a literal and its negation are both assumed (a case of a case split that cannot occur)"""
+    for a in fs:
+        if a[0] in ('cmp', 'truth') and neg(a) in fs:
+            return True
+        if a[0] == 'truth' and a[2] is True and ('cmp', 'is', a[1], 'None') in fs:
+            return True
+    return False
+
+
 def _ent(fs: Set, g) -> bool:
     if g[0] == 'true':
+        return True
+    if _inconsistent(fs):
         return True
     if g[0] == 'and':
         return all(_ent(fs, k) for k in g[1])
